@@ -334,6 +334,128 @@ fn history(depth: usize) -> Acc {
     })
 }
 
+// ------------------------------------------------------------------------ poisoned scratch
+
+const POISON: [u8; 6] = [0x01, 0x02, 0x03, 0x10, 0x7f, 0xff];
+
+/// A matcher may only read scratch cells the current call has written. Instead of hoping that
+/// some earlier call leaves a harmful residue at the right offset, the whole slab is overwritten
+/// (cfg-gated accessor) with each of several byte patterns before the call; the result must be
+/// the result of a fresh (zeroed) matcher.
+fn poisoned(thorough: bool) -> Acc {
+    // (1) structured calls: long gaps, periodic text, long haystacks
+    let mut texts: Vec<(Vec<char>, Vec<char>)> = Vec::new();
+    for g in [0usize, 1, 5, 13, 14, 15, 20, 33, 34, 35, 40, 70] {
+        let xs: Vec<char> = vec!['x'; g];
+        let mk = |parts: &[&[char]]| -> Vec<char> { parts.iter().flat_map(|p| p.iter().copied()).collect() };
+        texts.push((mk(&[&['x', 'a'], &xs, &['b']]), vec!['a', 'b']));
+        texts.push((mk(&[&['a'], &xs, &['b'], &xs, &['c', 'x']]), vec!['a', 'b', 'c']));
+        texts.push((mk(&[&[' ', 'a', 'b'], &xs, &['c']]), vec!['a', 'b', 'c']));
+        texts.push((mk(&[&['a'], &xs, &['b', 'c'], &xs]), vec!['a', 'c']));
+    }
+    let periodic: Vec<char> = "ab-Ab1 c/ba_".chars().cycle().take(300).collect();
+    texts.push((periodic.clone(), vec!['a', 'b', 'c']));
+    texts.push((periodic[..40].to_vec(), vec!['b', '1', 'c', 'a']));
+    texts.push(("ÄäbσςA b".chars().collect(), vec!['a', 'b']));
+    let cfgs = [
+        Cfg { ignore_case: true, normalize: true, paths: false, prefer_prefix: false },
+        Cfg { ignore_case: false, normalize: true, paths: true, prefer_prefix: true },
+    ];
+    let n_struct = texts.len();
+    // (2) a complete small domain
+    let dom = Domain::new("ascii5", crate::dom::ASCII5, if thorough { 6 } else { 5 }, 3, cfgs.to_vec());
+    let nh = dom.haystacks();
+    let chunk = 64u64;
+    let shards = ((nh + chunk - 1) / chunk) as usize + 1;
+    par_shards(shards, threads(), |shard, acc| {
+        let mut fresh = Matcher::default();
+        let mut dirty = Matcher::default();
+        let mut idx = Vec::new();
+        let mut idx2 = Vec::new();
+        let mut judge = |hay: &Text, needle: &Text, cfg: Cfg, algos: &[Algo], bytes: &[u8], acc: &mut Acc| {
+            for &algo in algos {
+                for &ha in hay.reps() {
+                    for &na in needle.reps() {
+                        for variant in 0..2 {
+                            fresh = Matcher::new(cfg.to_config());
+                            idx.clear();
+                            let want = if variant == 0 {
+                                call_match(&mut fresh, algo, hay.view(ha), needle.view(na))
+                            } else {
+                                call_indices(&mut fresh, algo, hay.view(ha), needle.view(na), &mut idx)
+                            };
+                            for &b in bytes {
+                                dirty.config = cfg.to_config();
+                                dirty.verif_fill_scratch(b);
+                                idx2.clear();
+                                acc.transitions += 1;
+                                let got = catch_unwind(AssertUnwindSafe(|| {
+                                    if variant == 0 {
+                                        call_match(&mut dirty, algo, hay.view(ha), needle.view(na))
+                                    } else {
+                                        call_indices(&mut dirty, algo, hay.view(ha), needle.view(na), &mut idx2)
+                                    }
+                                }));
+                                let bad = match &got {
+                                    Ok(g) => *g != want || idx2 != idx,
+                                    Err(_) => true,
+                                };
+                                if bad {
+                                    if got.is_err() {
+                                        dirty = Matcher::new(cfg.to_config());
+                                    }
+                                    let gi = idx2.clone();
+                                    let wi = idx.clone();
+                                    acc.violation(
+                                        &format!("C10/stale_scratch_read/{}{}", algo.name(), if variant == 0 { "_match" } else { "_indices" }),
+                                        "the result depends on what the scratch memory held before the call (a cell is read that the call did not write)",
+                                        || json!({"cfg": cfg.tag(), "haystack": show(&hay.chars), "needle": show(&needle.chars), "algo": algo.name(), "indices_variant": variant == 1, "rep": rep_tag(ha, na),
+                                                  "scratch_filled_with": format!("0x{b:02x}"), "fresh": {"score": want, "indices": wi}, "after_fill": {"score": got.as_ref().ok().copied().flatten(), "panicked": got.is_err(), "indices": gi}}),
+                                    );
+                                }
+                            }
+                        }
+                    }
+                }
+            }
+        };
+        if shard == 0 {
+            for (h, n) in texts.iter() {
+                let hay = Text::new(h);
+                let needle = Text::new(n);
+                for cfg in cfgs {
+                    acc.evaluations += 1;
+                    acc.states += 1;
+                    acc.nontrivial += 1;
+                    judge(&hay, &needle, cfg, &ALGOS, &POISON, acc);
+                }
+            }
+            return;
+        }
+        let lo = (shard as u64 - 1) * chunk;
+        let mut hbuf = Vec::new();
+        let mut nbuf = Vec::new();
+        for hi in lo..(lo + chunk).min(nh) {
+            crate::dom::decode(hi, &dom.alpha, &mut hbuf);
+            let hay = Text::new(&hbuf);
+            for &cfg in &dom.cfgs {
+                let na = crate::dom::needle_alphabet(&dom.alpha, cfg);
+                for ni in 0..crate::dom::count_strings(na.len(), dom.max_n) {
+                    crate::dom::decode(ni, &na, &mut nbuf);
+                    if nbuf.len() < 2 || nbuf.len() >= hbuf.len() {
+                        continue; // the matrix is only used for 2 <= n < h
+                    }
+                    let needle = Text::new(&nbuf);
+                    acc.evaluations += 1;
+                    acc.states += 1;
+                    judge(&hay, &needle, cfg, &[Algo::Fuzzy], &[0x03, 0xff], acc);
+                }
+            }
+        }
+        let _ = n_struct;
+    })
+}
+
 pub fn run(tier: &str) -> ! {
     let mut rep = Report::new("C10", tier);
     dom::quiet_panics();
@@ -374,6 +496,11 @@ pub fn run(tier: &str) -> ! {
     let acc = history(depth);
     let hist_n = acc.evaluations;
     rep.acc.merge(acc);
+    let acc = poisoned(thorough);
+    let poison_n = acc.evaluations;
+    rep.acc.merge(acc);
+    eprintln!("[C10] poisoned scratch done {:.1}s", rep.start.elapsed().as_secs_f64());
+    rep.extra("poisoned_scratch_cases", json!(poison_n));
     rep.acc.traces = rep.acc.transitions;
     rep.exhaustive = a_cases == expected_cases;
     rep.extra("totality_domains", json!(descr));
@@ -382,7 +509,7 @@ pub fn run(tier: &str) -> ! {
     rep.extra("extent_pairs_checked(both char types)", json!(ext_n));
     rep.extra("history_sequences", json!(hist_n));
     rep.bound = format!(
-        "(a) bounded domains + shape/long-needle families; (b) EVERY (h,n), n<=h<={H_MAX}, n<={N_MAX}, h*n<={CELL_MARGIN}, both character types - a superset of everything alloc accepts; (c) all call sequences of length <= {depth} over a pool of 40 calls"
+        "(a) bounded domains + shape/long-needle families; (b) EVERY (h,n), n<=h<={H_MAX}, n<={N_MAX}, h*n<={CELL_MARGIN}, both character types - a superset of everything alloc accepts; (c) all call sequences of length <= {depth} over a pool of 40 calls; (c') every call of a structured pool (gaps 0..70, periodic and long haystacks; 6 algorithms x 2 variants x representations) and every fuzzy call of a complete small domain repeated after the whole scratch slab was overwritten with each of several byte patterns"
     );
     rep.rule = "totality: every entry point on every case; extents: every shape alloc accepts; history: every sequence; non-trivial = large-shape cases and sequences of length >= 2".into();
     rep.assumptions = vec![
